@@ -25,7 +25,7 @@ def main(ids):
                 continue
             meta = json.load(open(os.path.join(d, "meta.json")))
             sh("git checkout -- . && git clean -fdq", cwd=wt)
-            rc, out = sh(f"git apply {d}/patch.diff", cwd=wt)
+            rc, out = sh(f"git apply {d}/patch.diff || git apply -3 {d}/patch.diff", cwd=wt)  # -3: a later fix: commit touched neighbouring lines
             if rc != 0:
                 print(sid, "patch no longer applies:", out.strip()[:120]); continue
             props = [meta.get("property", sid[:3])] + list((meta.get("author_meta") or {}).get("also_check", [])) + list(meta.get("also_check", []))
